@@ -107,18 +107,23 @@ fn differential<const N: usize>() {
     core::mem::forget(r);
 }
 
-// @h c10_checksum_diff_3 timeout=1800 mem=10
+// @h c10_checksum_diff_2 timeout=1500 mem=8
+#[cfg_attr(kani, kani::proof)]
+#[cfg_attr(kani, kani::unwind(97))]
+pub fn c10_checksum_diff_2() { differential::<2>() }
+
+// @h c10_checksum_diff_3 timeout=3000 mem=10 tier=thorough
 #[cfg_attr(kani, kani::proof)]
 #[cfg_attr(kani, kani::unwind(97))]
 pub fn c10_checksum_diff_3() { differential::<3>() }
 
-// @h c10_checksum_diff_5 timeout=3000 mem=12 tier=thorough
+// @h c10_checksum_diff_5 timeout=6000 mem=12 tier=thorough
 #[cfg_attr(kani, kani::proof)]
 #[cfg_attr(kani, kani::unwind(97))]
 pub fn c10_checksum_diff_5() { differential::<5>() }
 
 /// verify_checksum accepts s#checksum(s), returns s, and rejects any other 8 characters.
-// @h c10_verify_roundtrip timeout=1800 mem=10
+// @h c10_verify_roundtrip timeout=3000 mem=10 tier=thorough
 #[cfg_attr(kani, kani::proof)]
 #[cfg_attr(kani, kani::unwind(97))]
 pub fn c10_verify_roundtrip() {
